@@ -32,7 +32,7 @@ Failing(e) ==
           {<<p[1], p[2]>> : p \in ToSet(e.regs_post)} = Expected(gp)) \cup
        Cl(P(e, "C19.isEmpty"), e.empty_post <=> (gp = {})) \cup
        Cl(P(e, "C19.emptyCountsZero"), (gp = {}) => e.count_post = 0) \cup
-       Cl("C19.clone", e.twin_ok) \cup
+       Cl("C19.clone", e.twin_ok) \cup LockStepClause(e) \cup
        Cl(P(e, "C17.addIsAddHashedOfHashOne"), e.forms_same) \cup
        Cl(P(e, "C17.permutationAndRepetitionInvariant"), e.perm_same) \cup
        Cl(P(e, "C17.reconstructFromRegisters"), e.recon_same) \cup
